@@ -81,7 +81,8 @@ class PaneBase:
             name=name, out_format=out_format, in_format=in_format,
             eq=eq, order=order, frozen=frozen, unsafe_hash=unsafe_hash, allow_extra=allow_extra,
             kw_only=kw_only, in_rename=in_rename, out_rename=out_rename,
-            class_handlers=ConverterHandlers._process(custom),
+            # (None when unspecified, so handlers are inherited like the other options)
+            class_handlers=ConverterHandlers._process(custom) if custom is not None else None,
         )
 
         _process(cls, opts)
